@@ -486,6 +486,10 @@ func (t *cloneTree) feed(e *asm.Emitter, buf []byte, calls []hcall, depth int) {
 				invoke(sibs[s], c)
 			}
 		}
+		// until Append is called, nothing done to any clone (or to clones of clones) shows in e
+		names := labelNames(calls)
+		names = append(names, "the_end")
+		snap := observe(e, names)
 		late := -1
 		for s := range sibs {
 			switch {
@@ -496,6 +500,9 @@ func (t *cloneTree) feed(e *asm.Emitter, buf []byte, calls []hcall, depth int) {
 			default:
 				decoy(s)
 			}
+		}
+		if d := snap.diff(observe(e, names)); d != "" {
+			panic(fmt.Errorf("at depth %d, before Append: driving the clones of an emitter changed that emitter: %s", depth, d))
 		}
 		e.Append(sibs[chosen])
 		if late >= 0 {
